@@ -82,6 +82,18 @@ CLAIMS = {
     technique="Lean 4 proof (middleware step functions over the World model, using C04's accounting theorems) + differential correspondence on the real Tower service",
     note=NOTE_COMMON + " Own harness crate /verif/harness-tower (path dependencies on /repo/middleware/tower and /repo/sentinel-core). The tonic interceptor is not exercised (tonic 0.8 is not in the "
          "offline registry). Found and fixed with this check: D11 (exit skipped when the inner service errs; fix: commit a01c729)."),
+ "C14": dict(
+    category="proof",
+    text=("Theorems over every interleaving of any number of threads (Interleaving ps h: any history keeping each thread's program order; interleaving_perm): conc_eq_open (in-flight counter = "
+          "sum over threads of entries passed - exited), totals_eq_sums_one_bucket (no roll-over: every total = sum over all threads), totals_le_recorded_across_rollover (resets anywhere: a "
+          "total never exceeds what was recorded), one_node (get-or-insert in one critical section: all acquisitions return the same node), two_nodes_witness (the look-up / overwriting-insert "
+          "code the repository had is a counterexample). The models are atomic-step models (atomic fetch_add/fetch_sub, one critical section for get-or-insert); the tie runs 2-3 real threads "
+          "on the real code under the deterministic scheduler of the sync hook (scheduling points at every lock operation and wrapped atomic), with generated and single-preemption-exhaustive "
+          "schedules, and checks node identity per entry, final in-flight count and totals against the schedule-independent predictions."),
+    design_ref="DESIGN.md §6 C14",
+    technique="Lean 4 proof over all interleavings of an atomic-step model + scheduled executions of the real code (schedule = replay) checked against the model's schedule-independent predictions",
+    note=NOTE_COMMON + " Partial in one respect: only instrumented operations are scheduling points; weak-memory behaviour and uninstrumented atomics are outside the model. Schedule exploration on the "
+         "implementation is search, not proof. Found and fixed with this check: D6 (two nodes for one resource; fix: commit 577ba25)."),
  "C08": dict(
     category="translation_validation",
     text=("PARTIAL. Proved in Lean: structural theorems about the executable warm-up calculator for every state/threshold/clock (sync_stored_le_max, sync_once_per_second, sync_idempotent, "
